@@ -13,13 +13,24 @@ def build():
     if rc != 0:
         raise Harness("cannot build the environment shim:\n" + out)
     os.replace(SHIM + ".tmp", SHIM)
-    rc, out = sh(["python3", os.path.join(CRATE, "gen_shadow.py")])
-    if rc != 0:
-        raise Harness("gen_shadow.py failed:\n" + out)
-    shutil.copyfile("/repo/Cargo.lock", os.path.join(CRATE, "Cargo.lock"))
-    rc, out = sh(["cargo", "build", "--release", "--offline", "--target-dir", os.path.join(BUILD, "sessim")], cwd=CRATE)
-    if rc != 0:
-        raise Harness("the shadow crate does not build from /repo/impl/src:\n" + out[-6000:])
+    # the real lib.rs, transformed; if that does not build (lib.rs uses something only rustc's bridge offers),
+    # fall back to a re-created dispatch (`Output::process` stubbed) rather than giving up on the native layer
+    global SHADOW_MODE
+    first_err = None
+    for mode in ("transform", "dispatch"):
+        rc, out = sh(["python3", os.path.join(CRATE, "gen_shadow.py"), "--mode", mode])
+        if rc != 0:
+            raise Harness("gen_shadow.py failed:\n" + out)
+        SHADOW_MODE = json.loads(out.strip().split("\n")[-1])["mode"]
+        shutil.copyfile("/repo/Cargo.lock", os.path.join(CRATE, "Cargo.lock"))
+        rc, out = sh(["cargo", "build", "--release", "--offline", "--target-dir", os.path.join(BUILD, "sessim")], cwd=CRATE)
+        if rc == 0:
+            return
+        first_err = first_err or out
+    raise Harness("the shadow crate does not build from /repo/impl/src:\n" + (first_err or "")[-6000:])
+
+
+SHADOW_MODE = "transform"
 
 
 def drive(seed, sessions, start, selfcheck_every, tag, ref_exe=None):
@@ -146,6 +157,7 @@ def do_check(tier, seed, t0):
         "simulated_time": "the expanders read no clock; the simulated clock (seeded base, +1us per call) is offered to them as an environment dimension only",
         "fault_kinds_fired": a["faults"],
         "determinism_selfcheck": "%d session processes re-run in a fresh process with the identical plan; observation logs byte-identical" % a["selfchecked_processes"],
+        "shadow_crate_mode": SHADOW_MODE,
         "components": {
             "real": ["every expander module of /repo/impl/src (compiled in-process through a generated #[path] shadow crate, rebuilt from the working tree)", "syn / quote / proc-macro2"],
             "stubbed": ["layer A1: rustc's proc-macro bridge (proc-macro2 fallback token streams) and the `create_derive!` entry points / Output::process (re-created from lib.rs by gen_shadow.py)",
